@@ -123,6 +123,7 @@ struct pcf_value *cpu_add_to_pcf_type(struct cpu *cpu, struct pcf_type *type)
 #define EL(head, nx, k) ((k) == 0 ? (void *) (head) : (void *) (head)->nx)
 
 int g_nl, g_np, g_nt, g_nc, g_nphy;
+int w_nt, w_nc;
 /* =====================================================================================
  * init_global_indices
  * ===================================================================================== */
@@ -133,6 +134,7 @@ __CPROVER_requires(LIST2(sys->looms, struct loom, next) && LIST2(sys->procs, str
 __CPROVER_requires(g_nl == LEN2(sys->looms, next) && g_np == LEN2(sys->procs, gnext) && g_nt == LEN2(sys->threads, gnext) && g_nc == LEN2(sys->cpus, next))
 __CPROVER_requires(g_nphy == (g_nc < 1 ? 0 : (sys->cpus->is_virtual ? 0 : 1)) + (g_nc < 2 ? 0 : (sys->cpus->next->is_virtual ? 0 : 1)))
 __CPROVER_requires(g_tg_n == 0 && g_cg_n == 0 && g_pg_n == 0 && g_lg_n == 0 && g_k >= 0 && g_k < 2)
+__CPROVER_requires(w_nt == g_nt && w_nc == g_nc)      /* witnesses for native/c13_system_replay.c */
 __CPROVER_assigns(sys->nprocs, sys->nthreads, sys->ncpus, sys->nphycpus, GIDX_FRAME)
 /* declared totals = list lengths */
 __CPROVER_ensures(sys->nthreads == (size_t) g_nt && sys->ncpus == (size_t) g_nc && sys->nprocs == (size_t) g_np && sys->nphycpus == (size_t) g_nphy)
@@ -161,6 +163,7 @@ int c_system_connect(struct system *sys, struct bay *bay, struct recorder *rec)
 __CPROVER_requires(__CPROVER_is_fresh(sys, sizeof(struct system)) && PVT_OBJ(g_pvt_cpu) && PVT_OBJ(g_pvt_th))
 __CPROVER_requires(LIST2(sys->threads, struct thread, gnext) && LIST2(sys->cpus, struct cpu, next))
 __CPROVER_requires(g_nt == LEN2(sys->threads, gnext) && g_nc == LEN2(sys->cpus, next))
+__CPROVER_requires(w_nt == g_nt && w_nc == g_nc)      /* witnesses for native/c13_system_replay.c: the shape of the system */
 __CPROVER_requires(g_nt < 1 || __CPROVER_is_fresh(sys->threads->proc, sizeof(struct proc)))
 __CPROVER_requires(g_nt < 2 || __CPROVER_is_fresh(sys->threads->gnext->proc, sizeof(struct proc)))
 /* totals as init_global_indices leaves them (any value that fits a long) */
@@ -209,6 +212,7 @@ int ck_system_connect(struct system *sys, struct bay *bay, struct recorder *rec)
 __CPROVER_requires(__CPROVER_is_fresh(sys, sizeof(struct system)) && PVT_OBJ(g_pvt_cpu) && PVT_OBJ(g_pvt_th))
 __CPROVER_requires(LIST2(sys->threads, struct thread, gnext) && LIST2(sys->cpus, struct cpu, next))
 __CPROVER_requires(g_nt == LEN2(sys->threads, gnext) && g_nc == LEN2(sys->cpus, next))
+__CPROVER_requires(w_nt == g_nt && w_nc == g_nc)      /* witnesses for native/c13_system_replay.c: the shape of the system */
 __CPROVER_requires(g_nt < 1 || __CPROVER_is_fresh(sys->threads->proc, sizeof(struct proc)))
 __CPROVER_requires(g_nt < 2 || __CPROVER_is_fresh(sys->threads->gnext->proc, sizeof(struct proc)))
 __CPROVER_requires(sys->ncpus <= INT_MAX && sys->nthreads <= INT_MAX && g_decl_cpu == 0)
